@@ -239,6 +239,25 @@ def run(ctx):
               where=loc(cu, cu.node))
     reg = any((dotted(c.func) or '') == 'signal.signal' and 'SIGTERM' in norm(c.args[0]) and is_name(c.args[1], cu.name) for c in calls_in(ih.node))
     ctx.check('R3', 'the SIGTERM handler is installed', reg, 'RemoteServer.install_handlers', 'sigterm-not-installed', 'install_handlers does not install the SIGTERM handler', where=loc(ih, ih.node))
+    # the forced stage of stopping the server must deliver the signal that handler is installed for: RemoteServerProcess inherits terminate() from the
+    # process kind, whose forced kill is a call on self._child - Process.terminate() (SIGTERM) runs the handler, Process.kill() (SIGKILL) by-passes it
+    RSP = P.cls('RemoteServerProcess')
+    tf = RSP.find_method('terminate') if hasattr(RSP, 'find_method') else None
+    if tf is None:
+        for c0 in RSP.mro():
+            if not isinstance(c0, str) and 'terminate' in c0.methods:
+                tf = c0.methods['terminate']
+                break
+    ctx.require(tf is not None, 'RemoteServerProcess: terminate() not resolved')
+    ctx.used(tf)
+    forced = [c for c in calls_in(tf.node) if last_attr(c) in ('terminate', 'kill') and receiver(c) == 'self._child'] + \
+             [c for c in calls_in(tf.node) if (dotted(c.func) or '') == 'os.kill']
+    bad = [c for c in forced if last_attr(c) == 'kill' and receiver(c) == 'self._child'] + [c for c in forced if (dotted(c.func) or '') == 'os.kill' and 'SIGTERM' not in norm(c)]
+    ctx.check('R3', f'{tf.short} (the terminate() of the server process): the forced stage sends SIGTERM, the signal whose handler reaps the children', bool(forced) and not bad, tf.short,
+              'server-forced-stop-bypasses-the-handler:' + (norm(bad[0].func) if bad else 'none'),
+              f'the forced stage of {tf.short} uses `{norm(bad[0]) if bad else "?"}`: the server process is killed without running its SIGTERM handler, so a server that did not finish its '
+              'graceful shutdown within the timeout (a client half-way through a request, children that take long to reap) dies leaving its children running - and their parents, '
+              'whose sockets the orphans still hold, never find out', where=loc(tf, bad[0] if bad else tf.node))
     ctx.note('the SIGTERM handler iterates only over `children` (not `contexts`); checked by experiment to be benign (context helpers exit on EOF of their input pipe) - not armed')
 
     # ---------------------------------------------------------------- R4 forced kill reports and closes; control thread closes on child death
@@ -249,7 +268,7 @@ def run(ctx):
     ctx.require(reg2 is not None, 'RemoteWorker.terminate: regions not recognised')
     stmts = reg2['server']
     g = ctx.an.cfg(term, RW)
-    kill = [n for n in g.nodes if n.stmt is not None and n.part == 'post' and any(last_attr(c) == 'terminate' and receiver(c) == 'self._child' for c in n.calls())]
+    kill = [n for n in g.nodes if n.stmt is not None and n.part == 'post' and any(last_attr(c) in ('terminate', 'kill') and receiver(c) == 'self._child' for c in n.calls())]
     fab = {n.id for n in g.nodes if n.stmt is not None and n.part == 'eval' and any(last_attr(c) == 'send_msg' and len(c.args) >= 2 and norm(c.args[1]) == '(False, None)' and norm(c.args[0]) == 'self._socket' for c in n.calls())}
     rets = [n for n in g.nodes if n.kind == 'return']
     p = g.find_path(kill, lambda n: n in rets, edge_ok=is_flow, node_ok=lambda n: n.id not in fab)
